@@ -46,7 +46,8 @@ Proof. exact iterated_templates_placed. Qed.
 Print Assumptions C11_iterated_templates_placed.
 
 (* __init__ completeness: every directory at or below the package root (or the unversioned alias package) that holds an emitted
-   file of a package template holds an emitted __init__.py *)
+   file of a package template holds an emitted __init__.py — partial in one respect: proved for proto sub-packages at most one
+   level deep (hypothesis shallow); depth 2 is covered by C11_nested_example, T1 and the oracle *)
 Theorem C11_init_complete : forall a o old l,
   wf_rapi a old -> shallow a -> instances default_templates a o = Ok l ->
   forall i, In i l -> forall base_s, pkg_base_str a (i_tpl i) = Some base_s ->
@@ -55,12 +56,11 @@ Theorem C11_init_complete : forall a o old l,
 Proof. exact init_complete. Qed.
 Print Assumptions C11_init_complete.
 
-(* exactly one types module per target proto *)
+(* exactly one types module per target proto, for proto sub-packages of any depth *)
 Theorem C11_one_types_module_per_target_proto : forall a o l,
-  shallow a -> instances default_templates a o = Ok l ->
-  (forall u, In u (ra_protos a) -> In (mk_inst types_tpl (u_sub u) None (Some (u_module u))) l) /\
-  (forall i, In i l -> i_proto i <> None ->
-             exists u, In u (ra_protos a) /\ i = mk_inst types_tpl (u_sub u) None (Some (u_module u))).
+  instances default_templates a o = Ok l ->
+  (forall u, In u (ra_protos a) -> In (unit_inst types_tpl u) l) /\
+  (forall i, In i l -> i_proto i <> None -> exists u, In u (ra_protos a) /\ i = unit_inst types_tpl u).
 Proof. exact one_types_module_per_target_proto. Qed.
 Print Assumptions C11_one_types_module_per_target_proto.
 Theorem C11_types_module_name : forall a old sub m, wf_rapi a old -> Forall word sub -> word m ->
@@ -69,42 +69,48 @@ Theorem C11_types_module_name : forall a old sub m, wf_rapi a old -> Forall word
 Proof. exact types_module_name. Qed.
 Print Assumptions C11_types_module_name.
 
-(* one service package per service *)
+(* one service package per service, for proto sub-packages of any depth *)
 Theorem C11_one_package_per_service : forall a o l,
-  shallow a -> instances default_templates a o = Ok l ->
-  (forall tpl u s, In tpl service_pkg_tpls -> In u (ra_protos a) -> In s (u_services u) ->
-                   In (mk_inst tpl (u_sub u) (Some s) None) l) /\
+  instances default_templates a o = Ok l ->
+  (forall tpl u s, In tpl service_pkg_tpls -> In u (ra_protos a) -> In s (u_services u) -> In (svc_inst tpl u s) l) /\
   (forall i, In i l -> service_tpl (i_tpl i) = true -> occurs "%sub" (i_tpl i) = true ->
-             exists u s, In u (ra_protos a) /\ In s (u_services u) /\ i = mk_inst (i_tpl i) (u_sub u) (Some s) None).
+             exists u s, In u (ra_protos a) /\ In s (u_services u) /\ i = svc_inst (i_tpl i) u s).
 Proof. exact one_package_per_service. Qed.
 Print Assumptions C11_one_package_per_service.
 
-(* nothing for dependency files: the protos that get modules stem from files whose package has the target package as a string
-   prefix — the test the code applies; it is refuted as a statement about the target PACKAGE (finding) *)
-Theorem C11_protos_from_prefixed_files : forall files to_generate o a,
+(* nothing for dependency files: every proto that gets a module stems from a request file whose package is the target package
+   or one of its sub-packages (segment-wise, not a textual prefix) *)
+Theorem C11_nothing_for_dependency_files : forall files to_generate o a,
   build_rapi files to_generate o = Ok a ->
   forall u, In u (ra_protos a) ->
-  exists f, In f (sanitize_all [] files) /\ starts_with (target_package files to_generate) (pf_package f) = true
-            /\ u_module u = proto_module (pf_name f).
-Proof. exact protos_from_prefixed_files. Qed.
-Print Assumptions C11_protos_from_prefixed_files.
-Theorem C11_nothing_for_dependency_files_refuted :
-  exists files to_generate names,
-    generate default_templates files to_generate "" false false = Ok (names, 1) /\
-    exists dep, In dep files /\ mem_str (pf_name dep) to_generate = false /\ pf_package dep = "a.b.v1beta1" /\
-                forallb (fun f => negb (mem_str (pf_name f) to_generate) || String.eqb (pf_package f) "a.b.v1") files = true /\
-                In "a/b_v1/types/dep.py" names.
-Proof. exact nothing_for_dependency_files_refuted. Qed.
-Print Assumptions C11_nothing_for_dependency_files_refuted.
+  exists f, In f (sanitize_all [] files) /\ u_module u = proto_module (pf_name f) /\
+            (target_package files to_generate = "" \/ pf_package f = target_package files to_generate
+             \/ exists rest, pf_package f = target_package files to_generate ++ "." ++ rest).
+Proof. exact nothing_for_dependency_files. Qed.
+Print Assumptions C11_nothing_for_dependency_files.
+Example C11_dependency_example :
+  exists names,
+    generate default_templates [mkPF "a/b/v1beta1/dep.proto" "a.b.v1beta1" []; mkPF "a/b/v1/top.proto" "a.b.v1" ["Top"]]
+             ["a/b/v1/top.proto"] "" false false = Ok (names, 1) /\
+    mem_str "a/b_v1/types/top.py" names = true /\ mem_str "a/b_v1/types/dep.py" names = false /\
+    existsb (fun n => occurs "dep" n) names = false.
+Proof. exact dependency_example. Qed.
+Print Assumptions C11_dependency_example.
 
-(* without "shallow": sub-packages nested two levels deep lose their types modules (finding) *)
-Theorem C11_nested_subpackage_refuted :
-  wf_rapi nested_api false /\ In (mkU "low" ["sub"; "deep"] []) (ra_protos nested_api) /\
-  exists l, instances default_templates nested_api plain_opts = Ok l /\
-            forallb (fun i => negb (option_eqb String.eqb (i_proto i) (Some "low"))) l = true /\
-            existsb (fun i => option_eqb String.eqb (i_proto i) (Some "mid")) l = true.
-Proof. exact nested_subpackage_refuted. Qed.
-Print Assumptions C11_nested_subpackage_refuted.
+(* sub-packages nested two levels deep: the types / services theorems hold for any depth; C11_init_complete carries the
+   hypothesis "shallow" (depth <= 1): its symbolic argument treats the sub-package as one path segment.  The former witness of
+   the subpackage[0] defect is checked as a concrete example, deeper nestings by T1 and the oracle *)
+Example C11_nested_example :
+  wf_rapi nested_api false /\
+  exists names, candidates default_templates nested_api plain_opts = Ok names /\
+    forallb (fun n => mem_str n names)
+            ["a/b_v1/types/top.py"; "a/b_v1/sub/types/mid.py"; "a/b_v1/sub/deep/types/low.py"; "a/b_v1/__init__.py";
+             "a/b_v1/sub/__init__.py"; "a/b_v1/sub/deep/__init__.py"; "a/b_v1/sub/deep/types/__init__.py";
+             "a/b_v1/sub/deep/services/low_svc/transports/__init__.py"; "a/b_v1/sub/types/__init__.py"] = true /\
+    mem_str "a/b_v1/sub/sub/__init__.py" names = false /\ mem_str "a/b_v1/types/low.py" names = false
+    /\ forallb normalised names = true.
+Proof. exact nested_example. Qed.
+Print Assumptions C11_nested_example.
 
 (* private templates are never rendered *)
 Theorem C11_private_skipped : forall templates tpl,
@@ -122,19 +128,17 @@ Theorem C11_unknown_option_alone : forall raw,
   contains ","%char raw = false -> unknown_option raw = true -> options_build raw = options_build "".
 Proof. exact unknown_option_alone. Qed.
 Print Assumptions C11_unknown_option_alone.
-(* ... unless their value contains "=" and the code splits at every "=" (finding, DESIGN section 9 no. 19; opt_split_first is
-   regenerated from /repo: false for opt.split("="), true for opt.split("=", 1)) *)
-Theorem C11_unknown_option_refuted : opt_split_first = false ->
-  exists raw k v, split_on "="%char raw = k :: v /\ mem_str k opt_flags = false /\ starts_with gapic_prefix k = false /\
-                  options_build raw = Err EBadOption /\ options_build ("metadata," ++ raw) = Err EBadOption.
-Proof. exact unknown_option_refuted. Qed.
-Print Assumptions C11_unknown_option_refuted.
-Theorem C11_unknown_option_refuted_gen :
-  exists raw k v, split_on "="%char raw = k :: v /\ mem_str k opt_flags = false /\ starts_with gapic_prefix k = false /\
-                  options_build_gen false raw = Err EBadOption /\ options_build_gen false ("metadata," ++ raw) = Err EBadOption /\
-                  unknown_option_gen true raw = true.
-Proof. exact unknown_option_refuted_gen. Qed.
-Print Assumptions C11_unknown_option_refuted_gen.
+(* ... whatever their value: an option is unknown as soon as its key (text before the first "=") is neither a flag of the
+   generator nor prefixed python-gapic-; values containing "=" included (Mfile.proto=pkg=alias, foo=a=b) *)
+Theorem C11_unknown_key_ignored : forall l1 raw l2,
+  Forall (fun x => contains ","%char x = false) (l1 ++ raw :: l2) -> (l1 ++ l2)%list <> [] -> unknown_key raw = true ->
+  options_build (sjoin "," (l1 ++ raw :: l2)) = options_build (sjoin "," (l1 ++ l2)).
+Proof. exact unknown_key_ignored. Qed.
+Print Assumptions C11_unknown_key_ignored.
+Theorem C11_unknown_key_alone : forall raw,
+  contains ","%char raw = false -> unknown_key raw = true -> options_build raw = options_build "".
+Proof. exact unknown_key_alone. Qed.
+Print Assumptions C11_unknown_key_alone.
 
 (* non-vacuity of wf_rapi / shallow / unknown_option on non-trivial objects *)
 Example C11_example_ok :
@@ -147,12 +151,11 @@ Example C11_example_ok :
 Proof. exact example_ok. Qed.
 Print Assumptions C11_example_ok.
 Example C11_unknown_option_examples :
-  unknown_option_gen false "foo=bar" = true /\ unknown_option_gen false " Mgoogle/api/x.proto=pkg " = true
-  /\ unknown_option_gen false "" = true /\ unknown_option_gen false "metadata" = false
-  /\ unknown_option_gen false "python-gapic-name=x" = false /\ unknown_option_gen false "foo=a=b" = false
-  /\ unknown_option_gen true "foo=a=b" = true /\ unknown_option_gen true "transport=a=b" = false
-  /\ options_build_gen false "transport=rest,foo=bar,metadata" = options_build_gen false "transport=rest,metadata"
-  /\ options_build_gen true "transport=rest,foo=a=b,metadata" = options_build_gen true "transport=rest,metadata".
+  unknown_key "foo=bar" = true /\ unknown_key " Mgoogle/api/x.proto=pkg=alias " = true /\ unknown_key "foo=a=b" = true
+  /\ unknown_key "" = true /\ unknown_key "=" = true /\ unknown_key "metadata" = false /\ unknown_key "transport=a=b" = false
+  /\ unknown_key "python-gapic-name=x" = false
+  /\ options_build "transport=rest,foo=a=b,metadata" = options_build "transport=rest,metadata"
+  /\ on_ok (options_build "transport=a=b") (fun o => sl_eqb (o_transport o) ["a=b"]) = true.
 Proof. exact unknown_option_examples. Qed.
 Print Assumptions C11_unknown_option_examples.
 
@@ -180,7 +183,10 @@ Theorem C11_pins_naming_options :
                              "Unrecognized option: `python-gapic-"; "`."]
   /\ gapic_prefix = "python-gapic-"
   /\ invalid_module_extra = ["metadata"; "request"; "retry"; "timeout"]
-  /\ file_to_generate_exprs = ["fd.package.startswith(package)"; "proto.file_to_generate"]
+  /\ file_to_generate_exprs = ["in_package(fd.package)"; "proto.file_to_generate"]
+  /\ in_package_src = "not package or proto_package == package or proto_package.startswith(package + '.')"
+  /\ subpackage_elts = ["p.meta.address.subpackage[level]"]
+  /\ opt_split_first = true
   /\ forallb (fun k => negb (starts_with gapic_prefix k)) opt_flags = true
   /\ forallb (fun k => mem_str k consumed_keys) opt_flags = true
   /\ forallb (fun k => negb (ends_with "_" k)) invalid_module_names = true.
